@@ -181,19 +181,19 @@ Proof.
   eapply presented_proves; [exact Hcr | exact Hcs | exact Hf | now left].
 Qed.
 
-Lemma prov_refresh_client_inl cr c :
-  prov_refresh_client cf cr = inl c ->
-  find_client cf (c_id c) = Some c /\ cred_proves cf cr (c_id c) = true /\ c_refresh c = true.
+Lemma prov_refresh_client_inl s cr c :
+  prov_refresh_client cf s cr = inl c ->
+  find_client cf (c_id c) = Some c /\ cred_proves cf cr (c_id c) = true /\ has_refresh s c = true.
 Proof.
   unfold prov_refresh_client.
   destruct (cr_assert cr) as [v|] eqn:Hcr.
   { destruct (f_pkjwt cf); [|discriminate]. destruct (assertion_client cf v) as [c'|] eqn:Ha; [|discriminate].
-    destruct (c_refresh c') eqn:Hr; [|discriminate]. intros [= <-].
+    destruct (has_refresh s c') eqn:Hr; [|discriminate]. intros [= <-].
     apply (assertion_proves cr) in Ha as [Hf [Hp _]]; auto. }
   destruct (cred_id_sec cr) as [id sec] eqn:Hcs.
   destruct (find_client cf id) as [c'|] eqn:Hf; [|discriminate].
   pose proof (proj2 (find_client_id _ _ Hf)) as Hf2.
-  destruct (c_refresh c') eqn:Hr; cbn [negb]; [|discriminate].
+  destruct (has_refresh s c') eqn:Hr; cbn [negb]; [|discriminate].
   destruct (c_auth c') eqn:Hauth; try discriminate.
   1,2: destruct (secret_ok cf c' sec) eqn:Hs; [discriminate|]; intros [= <-]; apply secret_ok_eq in Hs;
        split; [exact Hf2|]; split; [|exact Hr];
@@ -219,38 +219,43 @@ Inductive trans (s : st) : op -> st -> out -> Prop :=
     trans s (Authorize cl uri scopes nonce chal)
       {| reqs := {| q_id := S (next s); q_client := cl; q_uri := uri; q_scopes := scopes; q_nonce := nonce;
                     q_chal := chal; q_done := false; q_sub := ""; q_auth := 0 |} :: reqs s;
-         codes := codes s; rtoks := rtoks s; next := S (next s); ncode := ncode s |}
+         codes := codes s; rtoks := rtoks s; next := S (next s); ncode := ncode s; norefresh := norefresh s |}
       (OAuthz (Some (S (next s))))
 | T_login n sub stamp q :
     find_req s n = Some q ->
     trans s (Login n sub stamp)
       {| reqs := map (set_login n sub stamp) (reqs s); codes := codes s; rtoks := rtoks s;
-         next := next s; ncode := ncode s |}
+         next := next s; ncode := ncode s; norefresh := norefresh s |}
       (OLogin true)
 | T_callback n q :
     find_req s n = Some q -> q_done q = true ->
     trans s (Callback n)
-      {| reqs := reqs s; codes := (S (ncode s), n) :: codes s; rtoks := rtoks s; next := next s; ncode := S (ncode s) |}
+      {| reqs := reqs s; codes := (S (ncode s), n) :: codes s; rtoks := rtoks s; next := next s; ncode := S (ncode s);
+         norefresh := norefresh s |}
       (OCode (S (ncode s)))
-| T_code cr cd uri ver q c :
+| T_code pl f cr cd uri ver q c :
     code_req s cd = Some q -> find_client cf (q_client q) = Some c ->
     cred_proves cf cr (q_client q) = true -> uri = q_uri q ->
     (forall ch, q_chal q = Some ch -> chal_ok H ch ver = true) ->
     (is_public c = true -> q_chal q <> None) ->
-    trans s (TokenCode cr (Some cd) uri ver) (fst (issue_code s q c)) (snd (issue_code s q c))
-| T_refresh cr n scopes t c sc :
-    find_rt s n = Some t -> find_client cf (r_client t) = Some c -> c_refresh c = true -> f_refresh cf = true ->
+    trans s (TokenCode pl f cr (Some cd) uri ver) (fst (issue_code s q c)) (snd (issue_code s q c))
+| T_refresh pl cr n scopes t c sc :
+    find_rt s n = Some t -> find_client cf (r_client t) = Some c -> has_refresh s c = true -> f_refresh cf = true ->
     cred_proves cf cr (r_client t) = true -> narrowed scopes (r_scopes t) = Some sc ->
-    trans s (TokenRefresh cr (Some n) scopes) (fst (issue_refresh s t c sc)) (snd (issue_refresh s t c sc)).
+    trans s (TokenRefresh pl cr (Some n) scopes) (fst (issue_refresh s t c sc)) (snd (issue_refresh s t c sc))
+| T_drop cl :
+    trans s (DropRefresh cl)
+      {| reqs := reqs s; codes := codes s; rtoks := rtoks s; next := next s; ncode := ncode s;
+         norefresh := cl :: norefresh s |} ODone.
 
 Lemma T_err s o r e : trans s o s (err r e).
 Proof. apply T_same. destruct r; exact I. Qed.
 Ltac terr := first [apply T_err | (apply T_same; exact I)].
 
-Lemma finish_refresh_trans r s cr n scopes t c :
-  find_rt s n = Some t -> find_client cf (c_id c) = Some c -> c_refresh c = true -> f_refresh cf = true ->
+Lemma finish_refresh_trans pl r s cr n scopes t c :
+  find_rt s n = Some t -> find_client cf (c_id c) = Some c -> has_refresh s c = true -> f_refresh cf = true ->
   cred_proves cf cr (c_id c) = true ->
-  trans s (TokenRefresh cr (Some n) scopes) (fst (finish_refresh r s t c scopes)) (snd (finish_refresh r s t c scopes)).
+  trans s (TokenRefresh pl cr (Some n) scopes) (fst (finish_refresh r s t c scopes)) (snd (finish_refresh r s t c scopes)).
 Proof.
   intros Hrt Hf Hr Hfl Hp. unfold finish_refresh.
   destruct (String.eqb (c_id c) (r_client t)) eqn:E; cbn [negb]; [|terr].
@@ -259,17 +264,15 @@ Proof.
   rewrite E in Hf, Hp. now apply T_refresh.
 Qed.
 
-Lemma step_trans r s o s' x : step H cf r s o = (s', x) -> trans s o s' x.
+Lemma read_grant_ok pl g : read_grant pl g = Some g.
+Proof. destruct pl, g; reflexivity. Qed.
+Lemma read_field_ok pl v d : read_field pl v d = v.
+Proof. destruct v; [destruct pl|]; reflexivity. Qed.
+
+Lemma code_step_trans pl f r s cr code uri ver s' x :
+  code_step H cf r s cr code uri ver = (s', x) -> trans s (TokenCode pl f cr code uri ver) s' x.
 Proof.
-  destruct o as [cl uri scopes nonce chal | n sub stamp | n | cr code uri ver | cr rt scopes]; cbn [step].
-  - (* authorize *)
-    unfold do_authorize. destruct (find_client cf cl); [|intros [= <- <-]; now apply T_same].
-    destruct (string_in uri (c_redirects c) && negb (is_nil scopes)); intros [= <- <-];
-      [apply T_authorize | now apply T_same].
-  - unfold do_login. destruct (find_req s n) eqn:Hq; intros [= <- <-]; [eapply T_login; eauto | now apply T_same].
-  - unfold do_callback. destruct (find_req s n) as [q|] eqn:Hq; [|intros [= <- <-]; now apply T_same].
-    destruct (q_done q) eqn:Hd; intros [= <- <-]; [eapply T_callback; eauto | now apply T_same].
-  - (* code *)
+  unfold code_step.
     destruct r.
     + unfold prov_code. destruct code as [cd|]; [|intros [= <- <-]; terr].
       destruct (code_req s cd) as [q|] eqn:Hq; [|intros [= <- <-]; terr].
@@ -305,11 +308,16 @@ Proof.
         apply pkce_pass in Hpk as [c0 [[= <-] Hok]]. exact Hok.
       * intros Hpub Hnone. rewrite Hpub in Hpk. cbn [orb] in Hpk. rewrite Hnone in Hpk.
         apply pkce_pass in Hpk as [c0 [Hx _]]. discriminate.
-  - (* refresh *)
+Qed.
+
+Lemma refresh_step_trans pl r s cr rt scopes s' x :
+  (match r with Provider => prov_refresh cf s cr rt scopes | Legacy => legacy_refresh cf s cr rt scopes end) = (s', x) ->
+  trans s (TokenRefresh pl cr rt scopes) s' x.
+Proof.
     destruct r.
     + unfold prov_refresh. destruct (f_refresh cf) eqn:Hfl; cbn [negb]; [|intros [= <- <-]; terr].
       destruct rt as [n|]; [|intros [= <- <-]; terr].
-      destruct (prov_refresh_client cf cr) as [c|e] eqn:Hc; [|intros [= <- <-]; terr].
+      destruct (prov_refresh_client cf s cr) as [c|e] eqn:Hc; [|intros [= <- <-]; terr].
       apply prov_refresh_client_inl in Hc as [Hf [Hp Hr]].
       destruct (find_rt s n) as [t|] eqn:Hrt; [|intros [= <- <-]; terr].
       intro Hi.
@@ -318,7 +326,7 @@ Proof.
       now apply finish_refresh_trans.
     + unfold legacy_refresh. destruct (legacy_client cf cr) as [c|e] eqn:Hc; [|intros [= <- <-]; terr].
       apply legacy_client_inl in Hc as [Hf Hp].
-      destruct (c_refresh c) eqn:Hr; cbn [negb]; [|intros [= <- <-]; terr].
+      destruct (has_refresh s c) eqn:Hr; cbn [negb]; [|intros [= <- <-]; terr].
       destruct rt as [n|]; [|intros [= <- <-]; terr].
       destruct (f_refresh cf) eqn:Hfl; cbn [negb]; [|intros [= <- <-]; terr].
       destruct (find_rt s n) as [t|] eqn:Hrt; [|intros [= <- <-]; terr].
@@ -328,9 +336,20 @@ Proof.
       now apply finish_refresh_trans.
 Qed.
 
+(* a code exchange either changes nothing and answers an error, or passed every guard *)
+Lemma trans_code_cases s pl f cr code uri ver s' x :
+  trans s (TokenCode pl f cr code uri ver) s' x ->
+  (s' = s /\ match x with OAuthz None | OLogin false | OCbErr | OCbFail | OErr _ _ => True | _ => False end)
+  \/ (exists cd q c, code = Some cd /\ code_req s cd = Some q /\ find_client cf (q_client q) = Some c
+                     /\ is_tokens x = true).
+Proof.
+  intro Ht. inversion Ht; subst.
+  - left. split; [reflexivity | assumption].
+  - right. eauto 8.
+Qed.
 
-Lemma trans_code_inv s cr code uri ver s' t :
-  trans s (TokenCode cr code uri ver) s' (OTokens t) ->
+Lemma trans_code_inv s pl f cr code uri ver s' t :
+  trans s (TokenCode pl f cr code uri ver) s' (OTokens t) ->
   exists cd q c, code = Some cd /\ code_req s cd = Some q /\ find_client cf (q_client q) = Some c
     /\ cred_proves cf cr (q_client q) = true /\ uri = q_uri q
     /\ (forall ch, q_chal q = Some ch -> chal_ok H ch ver = true)
@@ -342,10 +361,10 @@ Proof.
     exists cd, q, c; repeat (split; [solve [auto]|]); reflexivity end.
 Qed.
 
-Lemma trans_refresh_inv s cr rt scopes s' t0 :
-  trans s (TokenRefresh cr rt scopes) s' (OTokens t0) ->
+Lemma trans_refresh_inv s pl cr rt scopes s' t0 :
+  trans s (TokenRefresh pl cr rt scopes) s' (OTokens t0) ->
   exists n t c sc, rt = Some n /\ find_rt s n = Some t /\ find_client cf (r_client t) = Some c
-    /\ c_refresh c = true /\ f_refresh cf = true /\ cred_proves cf cr (r_client t) = true
+    /\ has_refresh s c = true /\ f_refresh cf = true /\ cred_proves cf cr (r_client t) = true
     /\ narrowed scopes (r_scopes t) = Some sc
     /\ issue_refresh s t c sc = (s', OTokens t0).
 Proof.
@@ -359,12 +378,72 @@ Lemma trans_callback_inv s n s' c :
   trans s (Callback n) s' (OCode c) -> exists q, find_req s n = Some q /\ q_done q = true.
 Proof. intro Ht. inversion Ht; subst; [contradiction | eauto]. Qed.
 
-Lemma trans_refresh_refused s cr rt sc s' x :
-  trans s (TokenRefresh cr rt sc) s' x -> is_tokens x = false -> s' = s.
+Lemma trans_refresh_refused s pl cr rt sc s' x :
+  trans s (TokenRefresh pl cr rt sc) s' x -> is_tokens x = false -> s' = s.
 Proof. intros Ht Hk. inversion Ht; subst; try reflexivity; discriminate. Qed.
 
-Lemma trans_code_refused s cr code uri ver s' x :
-  trans s (TokenCode cr code uri ver) s' x -> is_tokens x = false -> s' = s.
+Lemma trans_code_refused s pl f cr code uri ver s' x :
+  trans s (TokenCode pl f cr code uri ver) s' x -> is_tokens x = false -> s' = s.
 Proof. intros Ht Hk. inversion Ht; subst; try reflexivity; discriminate. Qed.
 
 End P.
+
+(* ---------------------------------------------------------------- the full step *)
+Section P2.
+Variable H : string -> string.
+Variable cf : cfg.
+
+Lemma err_inert (r : router) e :
+  match err r e with OAuthz None | OLogin false | OCbErr | OCbFail | OErr _ _ => True | _ => False end.
+Proof. destruct r; exact I. Qed.
+
+Lemma code_fault_trans pl m r s cr code uri ver s' x :
+  code_fault H cf m r s cr code uri ver = (s', x) ->
+  trans H cf s (TokenCode pl (Some m) cr code uri ver) s' x.
+Proof.
+  unfold code_fault.
+  assert (Hgen : forall s0 x0, code_step H cf r s cr code uri ver = (s0, x0) ->
+     (match x0 with
+      | OTokens t => if fault_reached m t then (s, err r E_server) else (s0, OTokens t)
+      | _ => (s0, x0) end) = (s', x) -> trans H cf s (TokenCode pl (Some m) cr code uri ver) s' x).
+  { intros s0 x0 E Hx. pose proof (code_step_trans H cf pl (Some m) _ _ _ _ _ _ _ _ E) as Ht.
+    destruct x0; try (injection Hx as <- <-; exact Ht).
+    destruct (fault_reached m t); injection Hx as <- <-; [apply T_same, err_inert | exact Ht]. }
+  destruct m.
+  - (* the code does not resolve *)
+    destruct (code_step H cf r (no_codes s) cr code uri ver) as [s0 x0] eqn:E. cbn [snd]. intros [= <- <-].
+    apply (code_step_trans H cf pl (Some SM_AuthRequestByCode)) in E.
+    apply trans_code_cases in E as [[_ Hx] | [cd [q [c [_ [Hq _]]]]]].
+    + apply T_same. exact Hx.
+    + unfold code_req in Hq. cbn in Hq. discriminate.
+  - (* no client resolves *)
+    destruct (code_step H (no_clients cf) r s cr code uri ver) as [s0 x0] eqn:E. cbn [snd]. intros [= <- <-].
+    apply (code_step_trans H (no_clients cf) pl (Some SM_GetClientByClientID)) in E.
+    apply trans_code_cases in E as [[_ Hx] | [cd [q [c [_ [_ [Hc _]]]]]]].
+    + apply T_same. exact Hx.
+    + unfold find_client in Hc. cbn in Hc. discriminate.
+  - destruct (code_step H cf r s cr code uri ver) as [s0 x0] eqn:E. intro Hx. eapply Hgen; eauto. destruct x0; exact Hx.
+  - destruct (code_step H cf r s cr code uri ver) as [s0 x0] eqn:E. intro Hx. eapply Hgen; eauto. destruct x0; exact Hx.
+  - destruct (code_step H cf r s cr code uri ver) as [s0 x0] eqn:E. intro Hx. eapply Hgen; eauto. destruct x0; exact Hx.
+  - destruct (code_step H cf r s cr code uri ver) as [s0 x0] eqn:E. intro Hx. eapply Hgen; eauto. destruct x0; exact Hx.
+  - destruct (code_step H cf r s cr code uri ver) as [s0 x0] eqn:E. intro Hx. eapply Hgen; eauto. destruct x0; exact Hx.
+Qed.
+
+Lemma step_trans r s o s' x : step H cf r s o = (s', x) -> trans H cf s o s' x.
+Proof.
+  destruct o as [cl uri scopes nonce chal | n sub stamp | n | pl f cr code uri ver | pl cr rt scopes | cl]; cbn [step].
+  - (* authorize *)
+    unfold do_authorize. destruct (find_client cf cl); [|intros [= <- <-]; now apply T_same].
+    destruct (string_in uri (c_redirects c) && negb (is_nil scopes)); intros [= <- <-];
+      [apply T_authorize | now apply T_same].
+  - unfold do_login. destruct (find_req s n) eqn:Hq; intros [= <- <-]; [eapply T_login; eauto | now apply T_same].
+  - unfold do_callback. destruct (find_req s n) as [q|] eqn:Hq; [|intros [= <- <-]; now apply T_same].
+    destruct (q_done q) eqn:Hd; intros [= <- <-]; [eapply T_callback; eauto | now apply T_same].
+  - rewrite read_grant_ok, read_field_ok. destruct f as [m|].
+    + apply code_fault_trans.
+    + apply code_step_trans.
+  - rewrite read_grant_ok, read_field_ok. apply refresh_step_trans.
+  - intros [= <- <-]. apply T_drop.
+Qed.
+
+End P2.
